@@ -67,7 +67,9 @@ def ob_timelock(ctx):
     W3.I.contracts_on = set(CONTRACTS)
     g1 = W3.add_history('1', released=False)
     g2 = W3.add_history('2', released=False)
-    W3.st.add(g1['id'] == W3.last_processed + 1, g2['id'] == W3.last_processed + 2, W3.batch_id == W3.last_processed + 3)
+    # the younger batch is any later undelegated batch (the batches between the two are abstracted: whether they are released
+    # as well does not touch the younger one); its decimal key may sort before the matured one's
+    W3.st.add(g1['id'] == W3.last_processed + 1, g2['id'] >= W3.last_processed + 2, W3.batch_id > g2['id'])
     W3.st.add(g1['time'] <= g2['time'], g2['time'] <= W3.now, g1['time'] + W3.unbonding <= W3.now, g2['time'] + W3.unbonding > W3.now)
     for g in (g1, g2):
         W3.st.add(g['bsei_wr'] <= 10 * E, g['stsei_wr'] <= 10 * E)
@@ -88,7 +90,8 @@ def ob_timelock(ctx):
         left = [e for e in st.stores[HUB].entries if e.fam == ('B', b'v2_wait') and e.present is not False]
         ctx.require(st, z3.BoolVal(len(left) == 1), 'the claim on the immature batch survives; only the matured one is paid', 'timelock:younger_claim', W3.mv)
         e3 = effects(W3, st, res)
-        ctx.require(st, e3.post['last_processed'] == W3.last_processed + 1, 'last processed batch advances over the matured batch only', 'timelock:younger_last', W3.mv)
+        ctx.require(st, z3.Implies(g2['id'] == W3.last_processed + 2, e3.post['last_processed'] == W3.last_processed + 1),
+                    'last processed batch advances over the matured batch only', 'timelock:younger_last', W3.mv)
         ctx.witness('matured + immature pending together', st, [g2['time'] + W3.unbonding == W3.now + 1], W3.mv, expect='ok')
     ctx.need_witness('two pending batches Ok path', k3 > 0)
     ctx.expect_witness('matured + immature region', 'matured + immature pending together')
